@@ -94,7 +94,7 @@ func classify(s *Spec, t *Taint, inMark bool) {
 		U(1)
 	case "domnew", "goerr", "pkgnew", "grpcstatus", "unknownnet", "uleafptr", "uleafval", "uleafnc", "uleaffmtold", "rleaf", "risleaf", "uoptleaf",
 		"hint", "detail", "handledmsg", "goerrorf", "goerrorfsuffix", "pkgmsg", "pkgwrap", "uwrapnofmt", "uwrapcause", "uwrapsuffix", "uwrapoverride", "uopt", "uwrapfmtold", "rwrapfull", "uwrapasself", "uleafas",
-		"goerrorfmulti", "umulti", "rmulti", "umulticause", "umulticauser", "umultias":
+		"goerrorfmulti", "umulti", "rmulti", "umulticause", "umulticauser", "umultias", "umultiis":
 		U(0)
 	case "addrerr", "dnsleaf", "dnswrap", "uleafformatter", "uwrapformatter", "uhinter":
 		U(0)
@@ -109,8 +109,10 @@ func classify(s *Spec, t *Taint, inMark bool) {
 	case "ukeymarker":
 		N(0) // a type-mark extension declared by a user type
 	case "domain", "handleddomain":
-		if inMark {
-			N(0) // type-mark extensions are safe by declaration
+		if inMark || (s.K == "domain" && len(s.I) > 0 && s.I[0] != 0) {
+			// type-mark extensions are safe by declaration; with NoDomain
+			// or Domain("") the drawn name is not used at all
+			N(0)
 		} else {
 			Sf(0)
 		}
@@ -141,6 +143,9 @@ func classify(s *Spec, t *Taint, inMark bool) {
 		U(2)
 	case "netop":
 		U(2)
+	case "netopsrc":
+		U(2)
+		U(3)
 	}
 	if s.C != nil {
 		classify(s.C, t, inMark)
